@@ -301,6 +301,15 @@ Theorem C01_heap_step_partial : forall hw w o, covered_heap o = true -> WFw w ->
 Proof. exact sim_step. Qed.
 Print Assumptions C01_heap_step_partial.
 
+(* the commuting square with the EXECUTABLE abstraction [abs_world] (unfold every tree's child lists from
+   its root, fuel = number of allocated nodes): abs (heap_op h) = machine_op (abs h), same result *)
+Theorem C01_heap_commutes_partial : forall hw w o, covered_heap o = true -> WFw w -> RepW hw w ->
+  abs_world hw = Some w /\
+  fst (h_step hw o) = fst (step w o) /\
+  abs_world (snd (h_step hw o)) = Some (snd (step w o)).
+Proof. exact heap_commutes. Qed.
+Print Assumptions C01_heap_commutes_partial.
+
 (* histories from the empty world: the heap stays a representation of the machine state, is
    well-formed in pointer terms, and unfolding its child lists from the roots (with fuel = number of
    allocated nodes, i.e. no cycle) yields exactly the machine's tree states *)
